@@ -621,3 +621,12 @@ CHECKS["C05"]["required_classes"]["all"] = CHECKS["C05"].get("required_classes",
 CHECKS["C05"]["level_text"] += " PAM clause: the module is run against sasl.Server for every callback message length 0..300 and both verdicts (exhaustive)."
 CHECKS["C02"]["required_classes"]["all"] += ["kind:long-line"]
 CHECKS["C02"]["required_classes"]["all"] += ["file-replaced-in-place-under-a-live-handle"]
+CHECKS["C10"]["jobs"].append(J("reloads", VBB, "TestC10Reloads", {"shards": 6, "checks": 5}, {"shards": 16, "checks": 150}))
+CHECKS["C10"]["required_classes"]["all"] += ["agent-survived->=2-reloads:hooks=none", "shape:requeue-pressure"]
+CHECKS["C10"]["level_text"] += " A black-box job sends reload signals (single and in bursts) to the running binary with and without a hooks directory and probes every frontend in between; a 'requeue-pressure' shape stops the dispatcher again right after logins of upgradeable users and queues a burst of changes and logins behind its own follow-up work."
+CHECKS["C08"]["required_classes"]["all"] += ["record-line-over-4096-bytes"]
+CHECKS["C03"]["required_classes"]["all"] = CHECKS["C03"].get("required_classes", {}).get("all", []) + ["base-holds-dangling-symlinks-named-like-hash-files", "traced-valid-name:own-files-only"]
+CHECKS["C04"]["required_classes"]["all"] += ["probe-kind:user-with-control-byte"]
+CHECKS["C06"]["jobs"].append(J("concurrent-sessions", AGENT, "TestC06ConcurrentSessions", {"shards": 2, "n": 200000}, {"shards": 8, "n": 3000000}, toolchain="go126", rapid=False))
+CHECKS["C06"]["required_classes"]["all"] = CHECKS["C06"].get("required_classes", {}).get("all", []) + ["sessions-checked-concurrently(user-vs-admin)"]
+CHECKS["C06"]["level_text"] += " A free-running job lets ordinary users and administrators use their sessions at the same moment (hundreds of thousands of requests): every user request is refused, every admin request succeeds."
